@@ -132,7 +132,28 @@ CALLS = [
     lambda: Sub.__from__({"id": 6, "name": "toolong"}),
 ]
 '''
-WORKLOADS = {"W1": W1, "W2": W2, "W3": W3, "W4": W4}
+W5 = '''
+import utype
+from typing import *
+from utype import Schema, Field
+
+class Base(Schema):
+    id: int
+    nxt: Optional['Leaf'] = None
+    many: List['Leaf'] = Field(default_factory=list)
+
+class Sub(Base):
+    x: int = 0
+
+class Leaf(Schema):
+    w: int = Field(ge=0)
+CALLS = [     # two threads make the first calls on the SAME subclass, whose inherited references the base class has to resolve
+    lambda: Sub.__from__({"id": "1", "nxt": {"w": "2"}, "many": [{"w": 3}]}),
+    lambda: Sub.__from__({"id": 4, "x": "5", "many": [{"w": "6"}, {"w": -1}]}),
+    lambda: Base.__from__({"id": 7, "nxt": {"w": 8}}),
+]
+'''
+WORKLOADS = {"W1": W1, "W2": W2, "W3": W3, "W4": W4, "W5": W5}
 _n = [0]
 
 
@@ -386,7 +407,7 @@ def campaign(ctx):
             ctx.sample(case["workload"], case)
         ctx.fail_all(r["fails"], case)
 
-    wl = ["W1", "W2"] if not ctx.thorough else ["W1", "W2", "W3", "W4"]
+    wl = ["W1", "W2", "W5"] if not ctx.thorough else ["W1", "W2", "W3", "W4", "W5"]
     # 1. exhaustive one-preemption sweep (split over the shards)
     n = 0
     idx = 0
@@ -424,7 +445,7 @@ def campaign(ctx):
     ctx.extra["gate_pair_schedules"] = n2
     # 2. sampled multi-preemption schedules over all workloads
     sched = st.fixed_dictionaries({
-        "workload": st.sampled_from(["W1", "W2", "W3", "W4"]), "threads": st.sampled_from([2, 2, 3]),
+        "workload": st.sampled_from(["W1", "W2", "W3", "W4", "W5"]), "threads": st.sampled_from([2, 2, 3]),
     }).flatmap(lambda c: st.fixed_dictionaries({
         "workload": st.just(c["workload"]), "threads": st.just(c["threads"]), "start": st.integers(0, c["threads"] - 1),
         "schedule": st.lists(st.tuples(st.integers(0, c["threads"] - 1), st.integers(1, 3000)).map(list), min_size=1, max_size=3)}))
